@@ -267,7 +267,13 @@ def value_dependencies(fn: ast.AST, e: ast.expr, depth: int = 0) -> Set[str]:
     out: Set[str] = set()
     for n in ast.walk(e):
         if isinstance(n, ast.Attribute) and isinstance(n.value, ast.Name) and n.value.id in ("self", "cls") and isinstance(n.ctx, ast.Load):
-            out.add(f"self.{n.attr}")
+            local = [a.value for a in ast.walk(fn) if isinstance(a, (ast.Assign, ast.AnnAssign)) and a.value is not None
+                     and any(dotted(t) == f"self.{n.attr}" for t in (a.targets if isinstance(a, ast.Assign) else [a.target]))]
+            if local and depth < 4:
+                for v in local:
+                    out |= value_dependencies(fn, v, depth + 1)
+            else:
+                out.add(f"self.{n.attr}")
         if isinstance(n, ast.Name) and isinstance(n.ctx, ast.Load):
             if n.id in params:
                 out.add(n.id)
@@ -278,6 +284,33 @@ def value_dependencies(fn: ast.AST, e: ast.expr, depth: int = 0) -> Set[str]:
                         if any(isinstance(t, ast.Name) and t.id == n.id for t in ts):
                             out |= value_dependencies(fn, a.value, depth + 1)
     return out
+
+
+def resolve_local(fn: ast.AST, e: ast.expr, depth: int = 0) -> ast.expr:
+    """A local name replaced by the expression it was (once) assigned."""
+    e = strip_cast(e)
+    if isinstance(e, ast.Name) and depth < 3:
+        vals = [a.value for a in ast.walk(fn) if isinstance(a, (ast.Assign, ast.AnnAssign)) and a.value is not None
+                and any(isinstance(t, ast.Name) and t.id == e.id for t in (a.targets if isinstance(a, ast.Assign) else [a.target]))]
+        if len(vals) == 1:
+            return resolve_local(fn, vals[0], depth + 1)
+    return e
+
+
+def lossy_components(fn: ast.AST, key_e: ast.expr) -> Set[str]:
+    """Dependencies that occur in the key only inside a call (a possibly non-injective transformation), never as a
+    direct component (the key itself or an element of the key tuple)."""
+    k = resolve_local(fn, key_e)
+    comps = list(k.elts) if isinstance(k, ast.Tuple) else [k]
+    direct: Set[str] = set()
+    inside: Set[str] = set()
+    for c in comps:
+        c = resolve_local(fn, c)
+        if isinstance(c, (ast.Name, ast.Attribute)):
+            direct |= value_dependencies(fn, c)
+        else:
+            inside |= value_dependencies(fn, c)
+    return inside - direct
 
 
 def check_shared_tables(repo: Repo, run: Run, prop: str, fns, path) -> None:
@@ -305,6 +338,15 @@ def check_shared_tables(repo: Repo, run: Run, prop: str, fns, path) -> None:
                             for t in (m.targets if isinstance(m, ast.Assign) else [m.target]):
                                 if isinstance(t, ast.Name) and t.id not in inst:
                                     shared[(st.name, t.id)] = m
+        # tables of other repository modules imported by name
+        for st in mod.tree.body:
+            if isinstance(st, ast.ImportFrom) and st.module:
+                src = st.module.split(".")[-1]
+                if src in ("evaluation", "celtypes", "celparser", "adapter") and src != modname:
+                    other = repo.mod(src)
+                    for al in st.names:
+                        if other.has(al.name) and isinstance(other.top(al.name), (ast.Assign, ast.AnnAssign)) and isinstance(strip_cast(getattr(other.top(al.name), "value", None) or ast.Constant(value=0)), (ast.Dict, ast.List, ast.Set)):
+                            shared[(None, al.asname or al.name)] = other.top(al.name)
         for key, f in sorted(fns.items()):
             if f.mod != modname or key not in path:
                 continue
@@ -323,12 +365,27 @@ def check_shared_tables(repo: Repo, run: Run, prop: str, fns, path) -> None:
                     return (None, parts[0])
                 return None
 
+            # names / attributes of this function that are plain aliases of a shared table (no copy)
+            alias: Dict[str, Tuple[Optional[str], str]] = {}
+            for x in channels.own_nodes(f.node):
+                if isinstance(x, (ast.Assign, ast.AnnAssign)) and x.value is not None and isinstance(strip_cast(x.value), (ast.Name, ast.Attribute)):
+                    c0 = cell_of(strip_cast(x.value))
+                    if c0 is not None:
+                        for t in (x.targets if isinstance(x, ast.Assign) else [x.target]):
+                            if dotted(t):
+                                alias[dotted(t)] = c0
+            _cell_of = cell_of
+
+            def cell_of(e: ast.expr, _c=_cell_of, _a=alias):  # type: ignore[no-redef]
+                return _c(e) or _a.get(dotted(e) or "")
+
             for x in channels.own_nodes(f.node):
                 stored = key_e = None
                 cell = None
-                if isinstance(x, ast.Assign) and isinstance(x.targets[0], ast.Subscript):
-                    cell = cell_of(x.targets[0].value)
-                    stored, key_e = x.value, x.targets[0].slice
+                sub_t = [t for t in x.targets if isinstance(t, ast.Subscript)] if isinstance(x, ast.Assign) else []
+                if sub_t:
+                    cell = cell_of(sub_t[0].value)
+                    stored, key_e = x.value, sub_t[0].slice
                 elif isinstance(x, ast.Call) and isinstance(x.func, ast.Attribute) and x.func.attr in MUT:
                     cell = cell_of(x.func.value)
                     if x.func.attr == "setdefault" and len(x.args) == 2:
@@ -343,6 +400,14 @@ def check_shared_tables(repo: Repo, run: Run, prop: str, fns, path) -> None:
                     kd = value_dependencies(f.node, key_e)
                     vd = value_dependencies(f.node, stored) - {f"self.{cell[1]}"}
                     missing = sorted(vd - kd)
+                    # the key must carry each dependency itself, not a lossy function of it
+                    lossy = sorted(d for d in vd & kd if d in lossy_components(f.node, key_e))
+                    if not missing and lossy:
+                        run.ob(f"{prop}.H1", f"{label}@{f.qual}|memo", False,
+                               f"{f.label} fills the process-wide table {label} under a key that contains {lossy} only through a transformation (`{ast.unparse(resolve_local(f.node, key_e))[:70]}`): "
+                               "inputs that the transformation maps to the same key share one stored value, so a later call gets the result of an earlier, different input",
+                               repo.mod(f.mod).loc(x))
+                        continue
                     run.ob(f"{prop}.H1", f"{label}@{f.qual}|memo", not missing,
                            f"{f.label} fills the process-wide table {label} under the key `{ast.unparse(key_e)[:40]}`; the stored value depends on {sorted(vd) or 'nothing else'}"
                            + ("" if not missing else f", of which {missing} is not part of the key: the first caller's value is served to every later program"),
